@@ -1242,7 +1242,12 @@ def L_poll(fn, ready, poll_blocks):
             if lab.variants != ({"Ready"} if ready else {"Pending"}):
                 return False
             s = fn.call_defining(lab.place["l"])
-            return s is not None and s.bb in poll_blocks
+            if s is not None:
+                return s.bb in poll_blocks
+            # the poll result travelled through temporaries / a tuple before being tested
+            rr = fn.roots({"l": lab.place["l"], "p": [e for e in lab.place["p"] if not (isinstance(e, dict) and "d" in e)]}, through_calls=False)
+            calls = [r for r in rr if r.kind == "call"]
+            return bool(calls) and all(r.site.bb in poll_blocks for r in calls)
         if lab.kind == "bool" and lab.value is not None and lab.cond.kind == "call":
             c = lab.cond.site
             if c.matches(r"Poll.*::is_ready$"):
@@ -1368,7 +1373,7 @@ def carriers(fn, block, local):
                     ops = r["ops"]
                 for o in ops:
                     q = op_place(o)
-                    if q is not None and not q["p"] and q["l"] in seen and st["p"]["l"] not in seen:
+                    if q is not None and (not q["p"] or r["k"] in ("use", "cast")) and q["l"] in seen and st["p"]["l"] not in seen:
                         seen.add(st["p"]["l"])
                         out.append((b, st["p"]["l"]))
                         changed = True
@@ -1468,6 +1473,17 @@ PURE_PREDICATES = {
 }
 
 
+def _as_int(v):
+    if v is None or v[0] != "const" or v[1] is None:
+        return None
+    m = re.match(r"^(-?\d+)(_[iu](8|16|32|64|128|size))?$", str(v[1]))
+    return int(m.group(1)) if m else None
+
+
+def _freeze(v):
+    return v
+
+
 def _is_variant(v, name):
     if v is None or v[0] != "variant":
         return None
@@ -1483,9 +1499,12 @@ class AbsPaths:
     class Undecided(Exception):
         pass
 
-    def __init__(self, fn, limit=20000):
+    def __init__(self, fn, limit=20000, oracles=None):
+        """oracles: list of (callee regex, fn(site, arg_values) -> abstract value | None): scenario inputs, i.e. what a call
+        the analysis does not look into is assumed to return in the scenario being evaluated (decision tables)."""
         self.fn = fn
         self.limit = limit
+        self.oracles = [(re.compile(p), f) for (p, f) in (oracles or [])]
         self.labels = {}
         for (a, b, lab) in fn.edges():
             self.labels[(a, b)] = lab
@@ -1507,8 +1526,12 @@ class AbsPaths:
             if v is None:
                 return None
             if e == "*":
-                if v[0] == "ref":
+                if v[0] in ("ref", "refmut"):
                     v = st.get(v[1])
+                    i += 1
+                    continue
+                if v[0] == "refval":
+                    v = v[1]
                     i += 1
                     continue
                 return None
@@ -1550,6 +1573,20 @@ class AbsPaths:
                 val = ("ref", q["l"])
                 if r["bk"] == "mut":
                     val = ("refmut", q["l"])
+            else:
+                # a reference into a known value: carry the value itself (enough for reads through the reference)
+                inner = self._eval_place(st, q)
+                if inner is not None:
+                    val = ("refval", inner)
+        elif k == "cast":
+            val = self._eval_operand(st, r["o"])
+        elif k == "binop":
+            a, b = self._eval_operand(st, r["a"]), self._eval_operand(st, r["b"])
+            ia, ib = _as_int(a), _as_int(b)
+            if ia is not None and ib is not None:
+                res = {"Eq": ia == ib, "Ne": ia != ib, "Lt": ia < ib, "Le": ia <= ib, "Gt": ia > ib, "Ge": ia >= ib}.get(r["op"])
+                if res is not None:
+                    val = ("const", "true" if res else "false")
         if val is None:
             st.pop(p["l"], None)
         else:
@@ -1559,12 +1596,27 @@ class AbsPaths:
         site = CallSite(self.fn, -1, t)
         n = norm(site.name)
         res = None
+        for rx, ofn in self.oracles:
+            if any(rx.search(c) for c in (site.nres, site.ndecl, site.res, site.decl) if c):
+                vals = []
+                for a in site.args:
+                    av = self._eval_operand(st, a)
+                    while av is not None and av[0] in ("ref", "refmut", "refval"):
+                        av = st.get(av[1]) if av[0] != "refval" else av[1]
+                    vals.append(av)
+                res = ofn(site, vals)
+                d = t["dest"]
+                if d["p"] or res is None:
+                    st.pop(d["l"], None)
+                else:
+                    st[d["l"]] = res
+                return
         for pat, fnp in PURE_PREDICATES.items():
             if n.endswith("::" + pat) or n.endswith(pat):
                 if site.args:
                     av = self._eval_operand(st, site.args[0])
-                    if av is not None and av[0] in ("ref", "refmut"):
-                        av = st.get(av[1])
+                    while av is not None and av[0] in ("ref", "refmut", "refval"):
+                        av = st.get(av[1]) if av[0] != "refval" else av[1]
                     r = fnp(av)
                     if r is not None:
                         res = ("const", "true" if r else "false")
@@ -1580,6 +1632,68 @@ class AbsPaths:
             st.pop(d["l"], None)
         else:
             st[d["l"]] = res
+
+    def _int_edge_feasible(self, st, t, lab):
+        v = _as_int(self._eval_operand(st, t["o"]))
+        if v is None:
+            return True
+        listed = [int(x) for x, _ in t["ts"] if str(x).lstrip("-").isdigit()]
+        if lab.value == "else":
+            return v not in listed
+        return str(lab.value).lstrip("-").isdigit() and int(lab.value) == v
+
+    def outcomes(self, state=None, start=0, observe_blocks=()):
+        """Decision-table evaluation: explores all feasible paths from `start` under `state` / the oracles and returns the
+        set of (abstract return value, frozenset of observe_blocks visited) over the paths that reach a return."""
+        fn = self.fn
+        out = set()
+        observe_blocks = set(observe_blocks)
+        seen = set()
+        stack = [(start, tuple(sorted((state or {}).items())), frozenset())]
+        n = 0
+        while stack:
+            b, fst, vis = stack.pop()
+            if (b, fst, vis) in seen:
+                continue
+            seen.add((b, fst, vis))
+            n += 1
+            if n > self.limit:
+                raise AbsPaths.Undecided("more than %d abstract states" % self.limit)
+            if b in observe_blocks:
+                vis = vis | {b}
+            st = dict(fst)
+            for s in fn.stmts(b):
+                if s["k"] == "assign":
+                    if is_noise(s):
+                        st.pop(s["p"]["l"], None)
+                    else:
+                        self._assign(st, s)
+            t = fn.term(b)
+            if t["k"] == "return":
+                out.add((_freeze(st.get(0)), vis))
+                continue
+            if t["k"] == "call":
+                if is_noise(t):
+                    st.pop(t["dest"]["l"], None)
+                else:
+                    self._call(st, t)
+            elif t["k"] == "yield":
+                st.pop(t["ra"]["l"], None)
+            for s2 in fn.succ[b]:
+                lab = self.labels.get((b, s2))
+                if lab is not None and t["k"] == "switch":
+                    if lab.kind == "variant":
+                        v = self._eval_place(st, lab.place)
+                        if v is not None and v[0] == "variant" and v[1] not in lab.variants:
+                            continue
+                    elif lab.kind == "bool" and lab.raw is not None:
+                        v = self._eval_operand(st, t["o"])
+                        if v is not None and v[0] == "const" and v[1] in ("true", "false") and (v[1] == "true") != lab.raw:
+                            continue
+                    elif lab.kind == "int" and not self._int_edge_feasible(st, t, lab):
+                        continue
+                stack.append((s2, tuple(sorted(st.items())), vis))
+        return out
 
     def values_at(self, block, operand, start=0):
         """Set of abstract values (None = unknown) the operand can have when control reaches the
@@ -1636,6 +1750,8 @@ class AbsPaths:
                         v = self._eval_operand(st, t["o"])
                         if v is not None and v[0] == "const" and v[1] in ("true", "false") and (v[1] == "true") != lab.raw:
                             continue
+                    elif lab.kind == "int" and not self._int_edge_feasible(st, t, lab):
+                        continue
                 nxt.append(s2)
             if len(nxt) != 1:
                 raise AbsPaths.Undecided("%d feasible successors at bb%d" % (len(nxt), b))
@@ -1695,6 +1811,8 @@ class AbsPaths:
                         if v is not None and v[0] == "const" and v[1] in ("true", "false"):
                             if (v[1] == "true") != lab.raw:
                                 continue
+                    elif lab.kind == "int" and not self._int_edge_feasible(st, t, lab):
+                        continue
                 stack.append((s2, tuple(sorted(st.items()))))
         return reached, n
 
